@@ -727,9 +727,16 @@ def run(chk, args):
         if isinstance(rp, dict) and str(rp.get("kind", "")).startswith("eventbus"):
             from checks import c15_eventbus
             return c15_eventbus.replay_part(chk, rp)
+        if isinstance(rp, dict) and str(rp.get("kind", "")).startswith("natdisc"):
+            from checks import c15_natdisc
+            return c15_natdisc.replay(chk, rp)
         return _run_core(chk, args)
-    if only is None or only - {"eventbus"}:
+    if only is None or only - {"eventbus", "natdisc"}:
         _run_core(chk, args)
     if only is None or "eventbus" in only:
         from checks import c15_eventbus
         c15_eventbus.run_eventbus_part(chk, args)
+    # client-side NAT discovery (spec/NatDiscovery), see notes/NatDiscovery.md
+    if only is None or "natdisc" in only:
+        from checks import c15_natdisc
+        c15_natdisc.run_natdisc_part(chk, args)
